@@ -170,6 +170,7 @@ def _encode_stub_env(fx, it, guessed, seg=None):
 
     def find_version(segments, error, eci, micro, is_sa=False):
         rec['find_version'] = (error, eci, micro, is_sa)
+        rec['find_version_segments'] = segments
         if isinstance(guessed, str):
             from ..interp import Raised
             raise Raised(None, it.exc_class(ast.parse('DataOverflowError', mode='eval').body, genv), 'overflow')
@@ -177,6 +178,7 @@ def _encode_stub_env(fx, it, guessed, seg=None):
 
     def _encode(segments, error, version, mask, eci, boost_error, sa_info=None):
         rec['_encode'] = dict(error=error, version=version, mask=mask, eci=eci, boost_error=boost_error)
+        rec['_encode_segments'] = segments
         return ('CODE', version, error, mask)
     genv = encoder_env(fx.forest, it, prepare_data=prepare_data, find_version=find_version, _encode=_encode)
     return genv, rec
@@ -234,127 +236,20 @@ def r4(fx):
                          and e[2] is micro and e[0] == levels(fx)['M'] and rec['_encode']['eci'] is eci, fn, got=e, want=('M', eci, micro))
 
 
-def _fit_witness(fx, fn, call):
-    """Classify how the version argument of an _encode call is related to a fit test of its segments.
-
-    Returns ('witness', text) or ('none', text)."""
-    kw = src.kwargs_of(call)
-    seg = call.args[0] if call.args else kw.get('segments')
-    ver = kw.get('version') if 'version' in kw else (call.args[2] if len(call.args) > 2 else None)
-    if seg is None or ver is None:
-        raise Unknown('cannot identify segments/version arguments of an _encode call')
-    return seg, ver
-
-
-@rule('C04', 'R5', 3, 'every _encode call is dominated by a witness that its segments fit the version it is given')
+@rule('C04', 'R5', 5, 'every _encode call is preceded by a version search over the very segments it is given, with a result not above the version it is given')
 def r5(fx):
-    for modq in ('encode', 'encode_sequence'):
-        fn = fx.fn('encoder', modq)
-        calls = [c for c in src.calls_in(fn, '_encode', into_nested=False) if src.call_name(c) == '_encode']
-        need(calls, f'no _encode call in {modq}')
-        for c in calls:
-            seg, ver = _fit_witness(fx, fn, c)
-            yield from _witness_ob(fx, fn, c, seg, ver)
-
-
-def _nth_site(fn, call):
-    sites = [c for c in src.calls_in(fn, '_encode', into_nested=False) if src.call_name(c) == '_encode']
-    return ['first', 'second', 'third', 'fourth'][sites.index(call)] if call in sites and sites.index(call) < 4 else 'n-th'
-
-
-def _witness_ob(fx, fn, call, seg, ver):
-    segt, vert = ast.unparse(seg), ast.unparse(ver)
-    comp = None
-    for a in src.ancestors(call):
-        if isinstance(a, (ast.ListComp, ast.GeneratorExp)):
-            comp = a
-            break
-        if a is fn:
-            break
-    stmts = list(src.statements(fn.body))
-    st_call = nf.enclosing_stmt(call)
-
-    def fv_calls(node):
-        return [c for c in ast.walk(node) if isinstance(c, ast.Call) and src.call_name(c) == 'find_version']
-
-    # Form A (encode): `guessed = find_version(SEG, ...)`; version is None -> version = guessed; elif guessed > version: raise
-    # Form B: version expression is `(version or guessed_version)` under guard `guessed_version <= (version or guessed_version)`
-    # Form C (comprehension over chunk_segments): version = max(find_version(s, ...) for s in CHUNKS) dominating, same CHUNKS iterated
-    witness = None
-    if comp is None:
-        doms = nf.dominators(call, fn, lambda s: isinstance(s, ast.Assign) and fv_calls(s.value))
-        # defs of names used in version expr
-        gnames = set()
-        for d in doms:
-            f = fv_calls(d.value)[0]
-            if ast.unparse(f.args[0]) == segt and isinstance(d.targets[0], ast.Name):
-                gnames.add(d.targets[0].id)
-        # names whose every definition in fn is `find_version(SEG, ...)` or None: a truthy value is a fit result
-        maybe = {}
-        for s_ in stmts:
-            if isinstance(s_, ast.Assign) and len(s_.targets) == 1 and isinstance(s_.targets[0], ast.Name):
-                nm = s_.targets[0].id
-                f = fv_calls(s_.value)
-                good = (isinstance(s_.value, ast.Constant) and s_.value.value is None) or \
-                    (isinstance(s_.value, ast.Call) and f and f[0] is s_.value and ast.unparse(f[0].args[0]) == segt)
-                maybe[nm] = maybe.get(nm, True) and good
-        truthy_names = {k for k, v in maybe.items() if v and any(
-            isinstance(s_, ast.Assign) and ast.unparse(s_.targets[0]) == k and fv_calls(s_.value) for s_ in stmts)}
-        # Form A
-        if gnames and isinstance(ver, ast.Name):
-            g = sorted(gnames)[0]
-            vname = ver.id
-            ifs = nf.dominators(call, fn, lambda s: isinstance(s, ast.If))
-            for i in ifs:
-                b1 = pat.match(i.test, f'{vname} is None')
-                if b1 is not None and len(i.body) == 1 and ast.unparse(i.body[0]) == f'{vname} = {g}' and len(i.orelse) == 1 \
-                        and isinstance(i.orelse[0], ast.If):
-                    j = i.orelse[0]
-                    if nf.same_any(j.test, (f'{g} > {vname}', f'{vname} < {g}')) and any(isinstance(x, ast.Raise) for x in j.body):
-                        witness = f'{g} = find_version({segt}, ...); {vname} = {g} if None, raise if {g} > {vname}'
-        # Form B: the call sits under a guard `G <= VER` where VER is literally the version expression passed
-        for t, pol in nf.guards_of(call, fn):
-            conj = t.values if isinstance(t, ast.BoolOp) and isinstance(t.op, ast.And) else [t]
-            for c in conj:
-                for g in gnames | truthy_names:
-                    b = pat.match(c, f'{g} <= H_v')
-                    if pol and b is not None and nf.norm(b['v']) == nf.norm(ver) and \
-                            (g in gnames or any(isinstance(x, ast.Name) and x.id == g for x in conj)):
-                        witness = f'{g} = find_version({segt}, ...) under guard {g} and {g} <= {vert}'
-    else:
-        # comprehension: `for i, S in enumerate(CHUNKS)` or `for S in CHUNKS`
-        gen = comp.generators[0]
-        it_txt = ast.unparse(gen.iter)
-        b = pat.match(gen.iter, 'enumerate(H_c)')
-        chunks = ast.unparse(b['c']) if b else it_txt
-        loopvars = [n.id for n in ast.walk(gen.target) if isinstance(n, ast.Name)]
-        if segt in loopvars and isinstance(ver, ast.Name):
-            vname = ver.id
-            # all assignments to vname that dominate or may reach
-            assigns = [s for s in stmts if isinstance(s, ast.Assign) and any(isinstance(t, ast.Name) and t.id == vname for t in s.targets)]
-            maxfit = [s for s in assigns if pat.match(s.value, f'max(find_version(H_s, H_e, eci=H_eci, micro=False, is_sa=True) for H_s in {chunks})')]
-            # paths: is the max-fit assignment executed on every path? (its guards)
-            if maxfit:
-                m = maxfit[0]
-                gs = nf.guards_of(m, fn)
-                if not gs:
-                    witness = f'{vname} = max(find_version(s, ...) for s in {chunks}) on every path'
-                else:
-                    # witness only under the guard; other paths need a check `max(...) > version -> raise`
-                    other = [s for s in stmts if isinstance(s, ast.If) and 'find_version' in ast.unparse(s.test)
-                             and any(isinstance(x, ast.Raise) for x in s.body)]
-                    if other:
-                        witness = f'{vname} = max(find_version ...) under {nf.guard_text(gs)}; else guarded raise'
-                    else:
-                        witness = None
-                        partial = nf.guard_text(gs)
-                        yield ob('_encode(<chunk segments>, version=<caller-supplied version>) in the comprehension over the chunks', False, call,
-                                 got=f'fit witness only on the path `{partial}`; on the other path {vname} is the caller-supplied '
-                                     f'version and no find_version({segt}) <= {vname} test dominates the call',
-                                 want=f'{vname} = max(find_version(s) for s in {chunks}) or a dominating raise if a chunk needs a larger version')
-                        return
-    yield ob(('_encode(<chunk segments>) in the comprehension over the chunks' if comp is not None else f'_encode at the {_nth_site(fn, call)} site'), witness is not None, call,
-             got=witness or 'no fit witness found', want='version := find_version(segments) or dominating raise on find_version(segments) > version')
+    # encode(): the segments searched are the segments encoded (that the version is not below the result is R4)
+    fn = fx.fn('encoder', 'encode')
+    it = Interp()
+    for req, guessed in ((None, 7), (10, 7), ('M4', -1)):
+        genv, rec = _encode_stub_env(fx, it, guessed)
+        FuncVal(fn, genv, it)('<content>', None, req, None, None, None, False, None, True)
+        same = rec.get('_encode_segments') is not None and rec.get('_encode_segments') is rec.get('find_version_segments')
+        v = rec.get('_encode', {}).get('version')
+        yield ob(f'encode(version={req}), smallest fitting {guessed}: the segments searched are the segments encoded, version >= result',
+                 same and v is not None and v >= guessed, fn, got=f'same segments: {same}, version passed {v}', want=f'same segments, version >= {guessed}')
+    from . import p08
+    yield from p08.fit_witness(fx)
 
 
 @rule('C04', 'R7', 32, 'Segments bookkeeping (bit_length, modes) stays equal to the segments it describes, also when parts are merged (C01.R5)')
